@@ -204,6 +204,7 @@ func evalC19(c *engine.Case) engine.Verdict {
 	h0 := &ghandle{g: &graph.Graph{}, st: &gstore{payload: map[int]graph.Vertex{}, edges: map[[2]int]int{}}}
 	handles := []*ghandle{h0}
 	rmWithEdges, mutAfterShare, overwrote, reAdded := false, false, false, false
+	missingEndpoint := false
 	shared := false
 	for step, op := range gh.Ops {
 		h := handles[op.H%len(handles)]
@@ -231,7 +232,16 @@ func evalC19(c *engine.Case) engine.Verdict {
 				pu, ok1 := st.payload[u]
 				pv, ok2 := st.payload[w2]
 				if !ok1 || !ok2 {
-					return // documented precondition: both endpoints present
+					// an endpoint is not in the graph: documented to do
+					// nothing ("Both v1 and v2 must already be in the Graph
+					// via Add or this will do nothing")
+					if op.Op == "edgew" {
+						h.g.AddEdgeWeighted(mk(u), mk(w2), op.W)
+					} else {
+						h.g.AddEdge(mk(u), mk(w2))
+					}
+					missingEndpoint = true
+					return
 				}
 				// address the vertices through fresh objects with the same
 				// identity half of the time
@@ -325,6 +335,9 @@ func evalC19(c *engine.Case) engine.Verdict {
 	}
 	if overwrote {
 		v.Class("overwrite-existing")
+	}
+	if missingEndpoint {
+		v.Class("edge-with-missing-endpoint")
 	}
 	if reAdded {
 		v.Class("re-add-existing")
